@@ -655,7 +655,7 @@ theorem substPh_eq (l : Bool) (i : Nat) (repl s : Str) : substPh (kwOf l) i repl
 /-! ### the invariant of the tokens during the insertion passes -/
 
 /-- the text contains no placeholder word -/
-def NoPh (s : Str) : Prop := ∀ l i, isInfix (phWord l i) s = false
+def NoPh (s : Str) : Prop := ∀ l i, i ≤ 999999 → isInfix (phWord l i) s = false
 
 /-- source tokens and inserted comments contain no placeholder word; placeholder lines are well formed -/
 def TokInv : XTok → Prop
@@ -735,8 +735,8 @@ theorem ph_free {l l' : Bool} {i j : Nat} {pad : Str} (hi : i ≤ 999999) (hj : 
 
 theorem free_of_inv {t : XTok} (h : TokInv t) (l : Bool) {i : Nat} (hi : i ≤ 999999) : Free l i t := by
   cases t with
-  | tok s => exact Or.inr (h l i)
-  | cmt l' full => exact Or.inr (h l i)
+  | tok s => exact Or.inr (h l i hi)
+  | cmt l' full => exact Or.inr (h l i hi)
   | ph l' j pad =>
     obtain ⟨hj, hne, hws⟩ := h
     by_cases hd : l' = l ∧ j = i
@@ -1399,7 +1399,7 @@ theorem kwComment_in_ph (l : Bool) (i : Nat) : isInfix C12.kwComment (phWord l i
 
 /-- a text without the word `COMMENT` contains no placeholder word -/
 theorem noPh_of_noComment {s : Str} (h : isInfix C12.kwComment s = false) : NoPh s := by
-  intro l i
+  intro l i _
   cases hc : isInfix (phWord l i) s with
   | false => rfl
   | true => rw [C02.Front.isInfix_trans (kwComment_in_ph l i) hc] at h; cases h
@@ -1526,7 +1526,7 @@ theorem okX_mapT (l : Bool) (T : Tbl Str) : ∀ (lay : List (Str × XTok)) (c : 
 
 /-- the default header in front of a comment brings in no placeholder word -/
 theorem noPh_hdr_append {t : Str} (ht : NoPh t) : NoPh (nativeHeader ++ t) := by
-  intro l i
+  intro l i hi
   cases hc : isInfix (phWord l i) (nativeHeader ++ t) with
   | false => rfl
   | true =>
@@ -1535,14 +1535,14 @@ theorem noPh_hdr_append {t : Str} (ht : NoPh t) : NoPh (nativeHeader ++ t) := by
     have hnl : '\n' ∉ phWord l i := fun h => (phWord_chars l i _ h).2.2.2.2.2.2.1 rfl
     rw [C12.nativeHeader_split, List.append_assoc] at hc
     rcases C12.infix_append_cases hc with h | h | ⟨p1, c2, p2, e1, _, _, hh⟩
-    · have := (noPh_of_noComment hdr_noComment) l i
+    · have := (noPh_of_noComment hdr_noComment) l i hi
       rw [this] at h; cases h
     · rcases C12.infix_append_cases h with h | h | ⟨p1, c2, p2, e1, hne1, hm, _⟩
       · rw [hP] at h
         have := C01.isInfix_cons_mem h
         simp only [List.mem_singleton] at this
         exact hnl (by rw [hP, this]; simp)
-      · rw [ht l i] at h; cases h
+      · rw [ht l i hi] at h; cases h
       · obtain ⟨c, hcm⟩ := List.exists_mem_of_ne_nil _ hne1
         have := hm c hcm
         simp only [List.mem_singleton] at this
@@ -2056,5 +2056,927 @@ theorem phOf_dom {k : Key} (h : isDomKey k = true) (x : Scalar) : phOf k x = non
     have := (C01.isSrcWord_iff.mp h.1.1).2.1
     have h2 : isInfix "COMMENT".toList (phWord l i) = true := kwComment_in_ph l i
     rw [h2] at this; cases this
+
+/-! ## 12. `_clean` on a tree without repeated comments at one level -/
+
+/-- one of the three passes of `_clean_data` -/
+def cstepF {α} [BEq α] (acc : Entries × Tbl α × List α) (k : Key) : Entries × Tbl α × List α :=
+  match k with
+  | .str x =>
+    (match firstSixDigits x with
+    | none => acc
+    | some i => match acc.2.1.get? i with
+      | none => acc
+      | some txt =>
+        if acc.2.2.contains txt then (delKey k acc.1, acc.2.1.del i, acc.2.2) else (acc.1, acc.2.1, acc.2.2 ++ [txt]))
+  | _ => acc
+
+def cstep {α} [BEq α] (sel : Key → Bool) (lvl : Entries) (tbl : Tbl α) : Entries × Tbl α :=
+  let r := ((keys lvl).filter sel).foldl cstepF (lvl, tbl, [])
+  (r.1, r.2.1)
+
+def selB (k : Key) : Bool := match k with | .str x => containsPh kwBlock x | _ => false
+def selI (k : Key) : Bool := match k with | .str x => !containsPh kwBlock x && containsPh kwIncl x | _ => false
+def selL (k : Key) : Bool :=
+  match k with | .str x => !containsPh kwBlock x && !containsPh kwIncl x && containsPh kwLine x | _ => false
+
+theorem cleanLevel_eq (s : SD) (level : Entries) :
+    cleanLevel s level =
+      ({ s with blockC := (cstep selB level s.blockC).2,
+                incl := (cstep selI (cstep selB level s.blockC).1 s.incl).2,
+                lineC := (cstep selL (cstep selI (cstep selB level s.blockC).1 s.incl).1 s.lineC).2 },
+       (cstep selL (cstep selI (cstep selB level s.blockC).1 s.incl).1 s.lineC).1) := rfl
+
+/-- the comment text `_clean_data` looks up for a key -/
+def look {α} (tbl : Tbl α) (k : Key) : Option α :=
+  match k with
+  | .str x => (firstSixDigits x).bind fun i => tbl.get? i
+  | _ => none
+
+theorem cstepF_fold (lvl : Entries) (tbl : Tbl Str) : ∀ (cand : List Key) (seen : List Str),
+    (seen ++ cand.filterMap (look tbl)).Nodup →
+    cand.foldl cstepF (lvl, tbl, seen) = (lvl, tbl, seen ++ cand.filterMap (look tbl))
+  | [], seen, _ => by simp
+  | k :: cand, seen, h => by
+    simp only [List.foldl_cons]
+    cases k with
+    | int z =>
+      have e : look tbl (.int z) = none := rfl
+      simp only [List.filterMap_cons, e] at h ⊢
+      exact cstepF_fold lvl tbl cand seen h
+    | str x =>
+      cases hf : firstSixDigits x with
+      | none =>
+        have e : look tbl (.str x) = none := by simp [look, hf]
+        have e2 : cstepF (lvl, tbl, seen) (.str x) = (lvl, tbl, seen) := by simp [cstepF, hf]
+        simp only [List.filterMap_cons, e, e2] at h ⊢
+        exact cstepF_fold lvl tbl cand seen h
+      | some i =>
+        cases hg : tbl.get? i with
+        | none =>
+          have e : look tbl (.str x) = none := by simp [look, hf, hg]
+          have e2 : cstepF (lvl, tbl, seen) (.str x) = (lvl, tbl, seen) := by simp [cstepF, hf, hg]
+          simp only [List.filterMap_cons, e, e2] at h ⊢
+          exact cstepF_fold lvl tbl cand seen h
+        | some txt =>
+          have e : look tbl (.str x) = some txt := by simp [look, hf, hg]
+          simp only [List.filterMap_cons, e] at h ⊢
+          have hns : txt ∉ seen := by
+            intro hm
+            have := List.nodup_append.mp h
+            exact this.2.2 txt hm txt List.mem_cons_self rfl
+          have e2 : cstepF (lvl, tbl, seen) (.str x) = (lvl, tbl, seen ++ [txt]) := by
+            have : seen.contains txt = false := by
+              cases hc : seen.contains txt with
+              | false => rfl
+              | true => exact absurd (List.contains_iff_mem.mp hc) hns
+            simp [cstepF, hf, hg, hns]
+          rw [e2, cstepF_fold lvl tbl cand (seen ++ [txt]) (by simpa using h)]
+          simp
+
+theorem cstep_id (sel : Key → Bool) (lvl : Entries) (tbl : Tbl Str)
+    (h : (((keys lvl).filter sel).filterMap (look tbl)).Nodup) : cstep sel lvl tbl = (lvl, tbl) := by
+  simp only [cstep]
+  rw [cstepF_fold lvl tbl _ [] (by simpa using h)]
+
+theorem cstep_nil {α} [BEq α] (sel : Key → Bool) (lvl : Entries) (tbl : Tbl α) (h : (keys lvl).filter sel = []) :
+    cstep sel lvl tbl = (lvl, tbl) := by
+  simp only [cstep, h, List.foldl_nil]
+
+/-- nothing to clean at this level: no two comment entries of a kind with the same text, no include entry -/
+def levelFix (s : SD) (lvl : Entries) : Prop :=
+  (((keys lvl).filter selB).filterMap (look s.blockC)).Nodup ∧ (keys lvl).filter selI = [] ∧
+  (((keys lvl).filter selL).filterMap (look s.lineC)).Nodup ∧ (keys lvl).Nodup
+
+theorem cleanLevel_id (s : SD) (lvl : Entries) (h : levelFix s lvl) : cleanLevel s lvl = (s, lvl) := by
+  rw [cleanLevel_eq, cstep_id selB lvl s.blockC h.1, cstep_nil selI lvl s.incl h.2.1, cstep_id selL lvl s.lineC h.2.2.1]
+
+/-- a property of every dict level below -/
+def allLevels (P : Entries → Prop) : Entries → Prop
+  | [] => True
+  | (_, .dict sub) :: r => (P sub ∧ allLevels P sub) ∧ allLevels P r
+  | (_, .leaf _) :: r => allLevels P r
+  | (_, .list _) :: r => allLevels P r
+
+theorem allLevels_mem {P : Entries → Prop} : ∀ {D : Entries} {k : Key} {sub : Entries}, allLevels P D →
+    (k, Val.dict sub) ∈ D → P sub ∧ allLevels P sub
+  | [], _, _, _, hm => by cases hm
+  | (k0, .dict sub0) :: r, k, sub, h, hm => by
+    simp only [allLevels] at h
+    rcases List.mem_cons.mp hm with e | hm
+    · cases e; exact h.1
+    · exact allLevels_mem h.2 hm
+  | (k0, .leaf x) :: r, k, sub, h, hm => by
+    simp only [allLevels] at h
+    rcases List.mem_cons.mp hm with e | hm
+    · cases e
+    · exact allLevels_mem h hm
+  | (k0, .list xs) :: r, k, sub, h, hm => by
+    simp only [allLevels] at h
+    rcases List.mem_cons.mp hm with e | hm
+    · cases e
+    · exact allLevels_mem h hm
+
+theorem allLevels_imp {P Q : Entries → Prop} (hPQ : ∀ D, P D → Q D) : ∀ {D : Entries}, allLevels P D → allLevels Q D
+  | [], _ => by simp only [allLevels]
+  | (k0, .dict sub0) :: r, h => by
+    simp only [allLevels] at h ⊢
+    exact ⟨⟨hPQ _ h.1.1, allLevels_imp hPQ h.1.2⟩, allLevels_imp hPQ h.2⟩
+  | (k0, .leaf x) :: r, h => by
+    simp only [allLevels] at h ⊢
+    exact allLevels_imp hPQ h
+  | (k0, .list xs) :: r, h => by
+    simp only [allLevels] at h ⊢
+    exact allLevels_imp hPQ h
+
+abbrev subsFix (s : SD) : Entries → Prop := allLevels (levelFix s)
+
+theorem subsFix_mem (s : SD) {D : Entries} {k : Key} {sub : Entries} (h : subsFix s D) (hm : (k, Val.dict sub) ∈ D) :
+    levelFix s sub ∧ subsFix s sub := allLevels_mem h hm
+
+theorem cleanRec_fix : ∀ (fuel : Nat) (s : SD) (D : Entries), levelFix s D → subsFix s D → cleanRec fuel s D = (s, D)
+  | 0, _, _, _, _ => rfl
+  | fuel + 1, s, D, hl, hs => by
+    simp only [cleanRec, cleanLevel_id s D hl]
+    suffices H : ∀ l : Entries, (∀ e ∈ l, e ∈ D) →
+        l.foldl (fun (acc : SD × Entries) e =>
+          match e.2 with
+          | .dict sub => ((cleanRec fuel acc.1 sub).1, setKey e.1 (.dict (cleanRec fuel acc.1 sub).2) acc.2)
+          | _ => acc) (s, D) = (s, D) from H _ (fun _ h => h)
+    intro l
+    induction l with
+    | nil => intro _; rfl
+    | cons e l ih =>
+      intro hsub
+      obtain ⟨k, v⟩ := e
+      have hmem : (k, v) ∈ D := hsub _ List.mem_cons_self
+      have hrest := ih fun e he => hsub e (List.mem_cons_of_mem _ he)
+      cases v with
+      | leaf x => simpa only [List.foldl_cons] using hrest
+      | list xs => simpa only [List.foldl_cons] using hrest
+      | dict sub =>
+        obtain ⟨h1, h2⟩ := subsFix_mem s hs hmem
+        simp only [List.foldl_cons, cleanRec_fix fuel s sub h1 h2, C07.setKey_of_mem_nodup hl.2.2.2 hmem]
+        exact hrest
+
+/-- **`_clean` changes nothing** when no level holds two comments of a kind with the same text -/
+theorem clean_fix (s : SD) (hl : levelFix s s.data) (hs : subsFix s s.data) : s.clean = s := by
+  simp only [SD.clean, cleanRec_fix _ s s.data hl hs]
+
+/-! ## 13. the meaning of a commented document, in closed form -/
+
+mutual
+  /-- the line comments (with `//`) in document order -/
+  def lineFullsV : CSrc → List Str
+    | .lit _ => []
+    | .dict items => lineFullsI items
+    | .list _ => []
+  def lineFullsI : List CItem → List Str
+    | [] => []
+    | .entry _ v :: r => lineFullsV v ++ lineFullsI r
+    | .lineC x :: r => ('/' :: '/' :: x) :: lineFullsI r
+    | .blockC _ :: r => lineFullsI r
+end
+
+mutual
+  /-- the block comments (with `/*` `*/`) in document order -/
+  def blockFullsV : CSrc → List Str
+    | .lit _ => []
+    | .dict items => blockFullsI items
+    | .list _ => []
+  def blockFullsI : List CItem → List Str
+    | [] => []
+    | .entry _ v :: r => blockFullsV v ++ blockFullsI r
+    | .lineC _ :: r => blockFullsI r
+    | .blockC x :: r => ('/' :: '*' :: x ++ ['*', '/']) :: blockFullsI r
+end
+
+/-- the state of the labelling after a stretch with the given line and block comments -/
+def stAfter (st : CLabelSt) (lf bf : List Str) : CLabelSt :=
+  { counter := C02.adv Gen.counterLimit lf.length st.counter,
+    lineC := C02.setAll st.lineC ((alloc Gen.counterLimit lf.length st.counter).zip lf),
+    blockC := st.blockC ++ (List.range' st.blockC.length bf.length).zip bf }
+
+theorem stAfter_nil (st : CLabelSt) : stAfter st [] [] = st := by
+  cases st
+  simp [stAfter, C02.adv, alloc, C02.setAll]
+
+theorem stAfter_append (st : CLabelSt) (a b a' b' : List Str) :
+    stAfter (stAfter st a b) a' b' = stAfter st (a ++ a') (b ++ b') := by
+  have hz : (alloc Gen.counterLimit (a.length + a'.length) st.counter).zip (a ++ a') =
+      (alloc Gen.counterLimit a.length st.counter).zip a ++
+        (alloc Gen.counterLimit a'.length (C02.adv Gen.counterLimit a.length st.counter)).zip a' := by
+    rw [C02.alloc_add, List.zip_append (by rw [C13.alloc_length])]
+  have hr : (List.range' st.blockC.length (b.length + b'.length)).zip (b ++ b') =
+      (List.range' st.blockC.length b.length).zip b ++
+        (List.range' (st.blockC.length + b.length) b'.length).zip b' := by
+    rw [← List.range'_append_1, List.zip_append (by simp)]
+  simp only [stAfter, List.length_append, C02.adv_add, hz, C02.setAll_append, List.length_zip, List.length_range',
+    Nat.min_self, hr, List.append_assoc]
+
+mutual
+  theorem label_stateV : ∀ (v : CSrc) (st : CLabelSt), (labelCV st v).1 = stAfter st (lineFullsV v) (blockFullsV v)
+    | .lit l, st => by simp only [labelCV, lineFullsV, blockFullsV, stAfter_nil]
+    | .dict items, st => by simp only [labelCV, lineFullsV, blockFullsV]; exact label_stateI items st
+    | .list xs, st => by simp only [labelCV, lineFullsV, blockFullsV, stAfter_nil]
+  /-- the state after labelling: the counter advanced by the number of line comments, their texts under the ids
+      drawn, the block comments numbered on -/
+  theorem label_stateI : ∀ (items : List CItem) (st : CLabelSt),
+      (labelCItems st items).1 = stAfter st (lineFullsI items) (blockFullsI items)
+    | [], st => by simp only [labelCItems, lineFullsI, blockFullsI, stAfter_nil]
+    | .entry k v :: r, st => by
+      simp only [labelCItems, lineFullsI, blockFullsI]
+      rw [label_stateI r, label_stateV v, stAfter_append]
+    | .lineC x :: r, st => by
+      simp only [labelCItems, lineFullsI, blockFullsI]
+      rw [label_stateI r]
+      have : ({ st with counter := (Counter.next Gen.counterLimit st.counter).2,
+                        lineC := st.lineC.set (Counter.next Gen.counterLimit st.counter).1 ('/' :: '/' :: x) } : CLabelSt) =
+          stAfter st ['/' :: '/' :: x] [] := by
+        cases st
+        simp [stAfter, C02.adv, alloc, C02.setAll]
+      rw [this, stAfter_append]
+      rfl
+    | .blockC x :: r, st => by
+      simp only [labelCItems, lineFullsI, blockFullsI]
+      rw [label_stateI r]
+      have : ({ st with blockC := st.blockC ++ [(st.blockC.length, '/' :: '*' :: x ++ ['*', '/'])] } : CLabelSt) =
+          stAfter st [] ['/' :: '*' :: x ++ ['*', '/']] := by
+        cases st
+        simp [stAfter, C02.adv, alloc, C02.setAll]
+      rw [this, stAfter_append]
+      rfl
+end
+
+/-- the typed form of a written key -/
+def keyOfStr (k : Str) : Key := (keyOfScalar (parseKey k)).getD (.str k)
+
+def phEntry (l : Bool) (i : Nat) : Key × Val := (.str (phWord l i), .leaf (.str (phWord l i)))
+
+mutual
+  /-- the data of the SDict the reader returns for the document, given the ids the line comments draw (`ls`, in
+      document order) and the number of the next block comment -/
+  def dTreeV (ls : List Nat) (n : Nat) : CSrc → Val
+    | .lit l => .leaf l.den
+    | .dict items => .dict (dTreeI ls n items)
+    | .list xs => .list (denSrcXs xs)
+  def dTreeI (ls : List Nat) (n : Nat) : List CItem → Entries
+    | [] => []
+    | .entry k v :: r =>
+      (keyOfStr k, dTreeV ls n v) :: dTreeI (ls.drop (lineFullsV v).length) (n + (blockFullsV v).length) r
+    | .lineC _ :: r => phEntry true (ls.headD 0) :: dTreeI ls.tail n r
+    | .blockC _ :: r => phEntry false n :: dTreeI ls (n + 1) r
+end
+
+def KNodup (D : Entries) : Prop := (keys D).Nodup
+
+theorem linePh_eq (i : Nat) : linePh i = phWord true i := rfl
+theorem blockPh_eq (i : Nat) : blockPh i = phWord false i := rfl
+
+theorem isPhTok_ph (l : Bool) (i : Nat) : isPhTok (phWord l i) = true := by
+  cases l
+  · exact (C12.blockPh_tok i).2
+  · exact (C12.linePh_tok i).2
+
+theorem denPEs_append_fresh {k : Str} {v : Src} (key : Key) (val : Val) (es : SrcEntries) (acc : Entries)
+    (hstep : ∀ acc', denPEs ((k, v) :: es) acc' = denPEs es (setKey key val acc'))
+    (hfresh : key ∉ keys acc) (rest : Entries) (ih : denPEs es (acc ++ [(key, val)]) = (acc ++ [(key, val)]) ++ rest) :
+    denPEs ((k, v) :: es) acc = acc ++ (key, val) :: rest := by
+  rw [hstep, C07.setKey_of_not_mem key val acc hfresh, ih]
+  simp
+
+mutual
+  theorem den_treeV : ∀ (v : CSrc) (st : CLabelSt) (ext : List Nat) (d : Nat), CSrcWFV d v = true →
+      (match v with
+       | .dict items =>
+         KNodup (dTreeI (alloc Gen.counterLimit (lineFullsV v).length st.counter ++ ext) st.blockC.length items) ∧
+         allLevels KNodup (dTreeI (alloc Gen.counterLimit (lineFullsV v).length st.counter ++ ext) st.blockC.length items)
+       | _ => True) →
+      denPV (labelCV st v).2 = dTreeV (alloc Gen.counterLimit (lineFullsV v).length st.counter ++ ext) st.blockC.length v
+    | .lit l, st, ext, d, _, _ => by simp only [labelCV, denPV, dTreeV]
+    | .list xs, st, ext, d, _, _ => by simp only [labelCV, denPV, dTreeV]
+    | .dict items, st, ext, d, hwf, hn => by
+      simp only [CSrcWFV] at hwf
+      simp only [labelCV, denPV, dTreeV, lineFullsV] at hn ⊢
+      have := den_treeI items st ext (d + 1) [] hwf hn.1 hn.2 (by simp)
+      rw [this]; rfl
+  /-- **the data the reader returns**, when the keys of every level are pairwise distinct: one entry per item, in order -/
+  theorem den_treeI : ∀ (items : List CItem) (st : CLabelSt) (ext : List Nat) (d : Nat) (acc : Entries),
+      CSrcWFItems d items = true →
+      KNodup (dTreeI (alloc Gen.counterLimit (lineFullsI items).length st.counter ++ ext) st.blockC.length items) →
+      allLevels KNodup (dTreeI (alloc Gen.counterLimit (lineFullsI items).length st.counter ++ ext) st.blockC.length items) →
+      (∀ k ∈ keys (dTreeI (alloc Gen.counterLimit (lineFullsI items).length st.counter ++ ext) st.blockC.length items),
+        k ∉ keys acc) →
+      denPEs (labelCItems st items).2 acc =
+        acc ++ dTreeI (alloc Gen.counterLimit (lineFullsI items).length st.counter ++ ext) st.blockC.length items
+    | [], st, ext, d, acc, _, _, _, _ => by simp [labelCItems, denPEs, dTreeI]
+    | .entry k v :: r, st, ext, d, acc, hwf, hn, hall, hdis => by
+      simp only [CSrcWFItems, Bool.and_eq_true] at hwf
+      obtain ⟨⟨⟨hk, hkey⟩, hv⟩, hr⟩ := hwf
+      obtain ⟨key, hkey⟩ := Option.isSome_iff_exists.mp hkey
+      have hks : keyOfStr k = key := by simp [keyOfStr, hkey]
+      have hnph : isPhTok k = false := (C02.srcWord_facts hk).2.1
+      -- the supplies split
+      have hsplit : alloc Gen.counterLimit (lineFullsI (.entry k v :: r)).length st.counter ++ ext =
+          alloc Gen.counterLimit (lineFullsV v).length st.counter ++
+            (alloc Gen.counterLimit (lineFullsI r).length (C02.adv Gen.counterLimit (lineFullsV v).length st.counter) ++ ext) := by
+        simp only [lineFullsI, List.length_append, C02.alloc_add, List.append_assoc]
+      rw [hsplit] at hn hall hdis ⊢
+      simp only [dTreeI, hks] at hn hall hdis ⊢
+      have hdrop : (alloc Gen.counterLimit (lineFullsV v).length st.counter ++
+            (alloc Gen.counterLimit (lineFullsI r).length (C02.adv Gen.counterLimit (lineFullsV v).length st.counter) ++ ext)).drop
+              (lineFullsV v).length =
+          alloc Gen.counterLimit (lineFullsI r).length (C02.adv Gen.counterLimit (lineFullsV v).length st.counter) ++ ext := by
+        rw [List.drop_left' (C13.alloc_length _ _ _)]
+      rw [hdrop] at hn hall hdis ⊢
+      have hst1 := label_stateV v st
+      have hc1 : (labelCV st v).1.counter = C02.adv Gen.counterLimit (lineFullsV v).length st.counter := by rw [hst1]; rfl
+      have hb1 : (labelCV st v).1.blockC.length = st.blockC.length + (blockFullsV v).length := by
+        rw [hst1]; simp [stAfter]
+      simp only [KNodup, keys, List.map_cons, List.nodup_cons] at hn
+      have hvden : denPV (labelCV st v).2 = dTreeV (alloc Gen.counterLimit (lineFullsV v).length st.counter ++
+            (alloc Gen.counterLimit (lineFullsI r).length (C02.adv Gen.counterLimit (lineFullsV v).length st.counter) ++ ext))
+            st.blockC.length v := by
+        apply den_treeV v st _ d hv
+        cases v with
+        | lit l => trivial
+        | list xs => trivial
+        | dict items =>
+          simp only [dTreeV, allLevels] at hall
+          exact hall.1
+      have hallr : allLevels KNodup (dTreeI (alloc Gen.counterLimit (lineFullsI r).length
+          (C02.adv Gen.counterLimit (lineFullsV v).length st.counter) ++ ext) (st.blockC.length + (blockFullsV v).length) r) := by
+        cases v with
+        | lit l => simpa only [dTreeV, allLevels] using hall
+        | list xs => simpa only [dTreeV, allLevels] using hall
+        | dict items => simp only [dTreeV, allLevels] at hall; exact hall.2
+      simp only [labelCItems]
+      have ih := den_treeI r (labelCV st v).1 ext d (acc ++ [(key, denPV (labelCV st v).2)]) hr
+        (by rw [hc1, hb1]; exact hn.2) (by rw [hc1, hb1]; exact hallr)
+        (by
+          rw [hc1, hb1]
+          intro k' hk' hmem
+          simp only [keys, List.map_append, List.map_cons, List.map_nil, List.mem_append, List.mem_singleton] at hmem
+          rcases hmem with hmem | rfl
+          · exact hdis k' (by simp only [keys, List.map_cons, List.mem_cons]; exact Or.inr hk') hmem
+          · exact hn.1 hk')
+      rw [hc1, hb1] at ih
+      rw [C12.denPEs_cons hnph hkey, C07.setKey_of_not_mem key _ acc (hdis key (by simp [keys])), ih, hvden]
+      simp
+    | .lineC x :: r, st, ext, d, acc, hwf, hn, hall, hdis => by
+      simp only [CSrcWFItems, Bool.and_eq_true] at hwf
+      have hal : alloc Gen.counterLimit (lineFullsI (.lineC x :: r)).length st.counter ++ ext =
+          (Counter.next Gen.counterLimit st.counter).1 ::
+            (alloc Gen.counterLimit (lineFullsI r).length (Counter.next Gen.counterLimit st.counter).2 ++ ext) := by
+        simp only [lineFullsI, List.length_cons, C13.alloc_succ, List.cons_append]
+      rw [hal] at hn hall hdis ⊢
+      simp only [dTreeI, List.headD_cons, List.tail_cons, phEntry] at hn hall hdis ⊢
+      simp only [KNodup, keys, List.map_cons, List.nodup_cons] at hn
+      simp only [allLevels] at hall
+      simp only [labelCItems, linePh_eq]
+      have ih := den_treeI r (⟨(Counter.next Gen.counterLimit st.counter).2,
+          st.lineC.set (Counter.next Gen.counterLimit st.counter).1 ('/' :: '/' :: x), st.blockC⟩ : CLabelSt) ext d
+        (acc ++ [(.str (phWord true (Counter.next Gen.counterLimit st.counter).1),
+          .leaf (.str (phWord true (Counter.next Gen.counterLimit st.counter).1)))]) hwf.2 hn.2 hall
+        (by
+          intro k' hk' hmem
+          simp only [keys, List.map_append, List.map_cons, List.map_nil, List.mem_append, List.mem_singleton] at hmem
+          rcases hmem with hmem | rfl
+          · exact hdis k' (by simp only [keys, List.map_cons, List.mem_cons]; exact Or.inr hk') hmem
+          · exact hn.1 hk')
+      rw [C12.denPEs_cons_ph (isPhTok_ph true _), C07.setKey_of_not_mem _ _ acc (hdis _ (by simp [keys])), ih]
+      simp
+    | .blockC x :: r, st, ext, d, acc, hwf, hn, hall, hdis => by
+      simp only [CSrcWFItems, Bool.and_eq_true] at hwf
+      simp only [lineFullsI, dTreeI, phEntry] at hn hall hdis ⊢
+      simp only [KNodup, keys, List.map_cons, List.nodup_cons] at hn
+      simp only [allLevels] at hall
+      simp only [labelCItems, blockPh_eq]
+      have ih := den_treeI r (⟨st.counter, st.lineC, st.blockC ++ [(st.blockC.length, '/' :: '*' :: x ++ ['*', '/'])]⟩ : CLabelSt) ext d
+        (acc ++ [(.str (phWord false st.blockC.length), .leaf (.str (phWord false st.blockC.length)))]) hwf.2
+        (by simpa [KNodup] using hn.2) (by simpa using hall)
+        (by
+          intro k' hk' hmem
+          simp only [keys, List.map_append, List.map_cons, List.map_nil, List.mem_append, List.mem_singleton] at hmem
+          rcases hmem with hmem | rfl
+          · exact hdis k' (by simp only [keys, List.map_cons, List.mem_cons]; exact Or.inr (by simpa using hk')) hmem
+          · exact hn.1 (by simpa using hk'))
+      rw [C12.denPEs_cons_ph (isPhTok_ph false _), C07.setKey_of_not_mem _ _ acc (hdis _ (by simp [keys])), ih]
+      simp
+end
+
+/-! ## 14. hypotheses on the items; the document that is written, in terms of the items -/
+
+/-- no word `LINECOMMENTdddddd` / `BLOCKCOMMENTdddddd` in the text -/
+def noPhB (s : Str) : Bool := !containsPh kwLine s && !containsPh kwBlock s
+
+theorem noPh_of_B {s : Str} (h : noPhB s = true) : NoPh s := by
+  intro l i hi
+  cases hc : isInfix (phWord l i) s with
+  | false => rfl
+  | true =>
+    exfalso
+    obtain ⟨a, b, rfl⟩ := C01.isInfix_iff.mp hc
+    have hcp : containsPh (kwOf l) (a ++ phWord l i ++ b) = true := by
+      simp only [containsPh, List.any_eq_true, Bool.and_eq_true]
+      refine ⟨phWord l i ++ b, C01.mem_tails.mpr ⟨a, by simp⟩, ?_, ?_⟩
+      · rw [show phWord l i = kwOf l ++ padSix i from rfl, List.append_assoc, List.isPrefixOf_iff_prefix]
+        exact List.prefix_append _ _
+      · rw [show phWord l i = kwOf l ++ padSix i from rfl, List.append_assoc, List.drop_left, digitRun_padSix hi]
+        rfl
+    simp only [noPhB, Bool.and_eq_true, Bool.not_eq_true'] at h
+    cases l
+    · rw [show kwOf false = kwBlock from rfl, h.2] at hcp; cases hcp
+    · rw [show kwOf true = kwLine from rfl, h.1] at hcp; cases hcp
+
+/-- a line-comment text the writer reproduces: no trailing white space, no placeholder word -/
+def lineTextOK (x : Str) : Bool :=
+  (match x.getLast? with | some z => !isWs z | none => true) && noPhB ('/' :: '/' :: x)
+
+/-- a block-comment text the writer reproduces: no carriage return, no line with trailing white space, no
+    placeholder word -/
+def blockTextOK (x : Str) : Bool :=
+  !('/' :: '*' :: x ++ ['*', '/']).contains '\r' &&
+  (C01.rts ('/' :: '*' :: x ++ ['*', '/']) == '/' :: '*' :: x ++ ['*', '/']) &&
+  noPhB ('/' :: '*' :: x ++ ['*', '/'])
+
+theorem lineFull_of_ok {x : Str} (h1 : isLineCText x = true) (h2 : lineTextOK x = true) : LineFull ('/' :: '/' :: x) := by
+  simp only [lineTextOK, Bool.and_eq_true] at h2
+  refine ⟨x, rfl, h1, ?_, noPh_of_B h2.2⟩
+  intro z hz
+  rw [hz] at h2
+  simpa using h2.1
+
+theorem blockFull_of_ok {x : Str} (h1 : isBlockCText x = true) (h2 : blockTextOK x = true) :
+    BlockFull ('/' :: '*' :: x ++ ['*', '/']) := by
+  simp only [blockTextOK, Bool.and_eq_true, Bool.not_eq_true', beq_iff_eq] at h2
+  refine ⟨x, rfl, h1, ?_, h2.1.2, noPh_of_B h2.2⟩
+  intro c hc e
+  subst e
+  have := List.contains_iff_mem.mpr hc
+  rw [h2.1.1] at this; cases this
+
+mutual
+  /-- value-domain and comment-text conditions on a commented document (on top of `CSrcWFItems`) -/
+  def okV (d : Nat) : CSrc → Bool
+    | .lit l => isDomScalar .native l.den && decide (d ≤ 10)
+    | .dict items => okI (d + 1) items
+    | .list xs => domXs .native (d + 1) (denSrcXs xs)
+  def okI (d : Nat) : List CItem → Bool
+    | [] => true
+    | .entry k v :: r => isDomKey (keyOfStr k) && okV d v && okI d r
+    | .lineC x :: r => lineTextOK x && okI d r
+    | .blockC x :: r => blockTextOK x && okI d r
+end
+
+mutual
+  /-- the document as the writer spells it: keys and scalars in the writer's spelling, comments as they are -/
+  def cnormV : CSrc → CSrc
+    | .lit l => .lit (writtenLit .native l.den)
+    | .dict items => .dict (cnormI items)
+    | .list xs => .list (srcOfXs .native (denSrcXs xs))
+  def cnormI : List CItem → List CItem
+    | [] => []
+    | .entry k v :: r => .entry (keyStr (keyOfStr k)) (cnormV v) :: cnormI r
+    | .lineC x :: r => .lineC x :: cnormI r
+    | .blockC x :: r => .blockC x :: cnormI r
+end
+
+/-- the tables hold the comments of a stretch under the ids it draws -/
+def LkL (L : Tbl Str) (ls : List Nat) (lf : List Str) : Prop := ∀ p ∈ ls.zip lf, L.get? p.1 = some p.2
+def LkB (B : Tbl Str) (n : Nat) (bf : List Str) : Prop := ∀ p ∈ (List.range' n bf.length).zip bf, B.get? p.1 = some p.2
+
+theorem LkL_split {L : Tbl Str} {la lb : List Nat} {a b : List Str} (hl : la.length = a.length)
+    (h : LkL L (la ++ lb) (a ++ b)) : LkL L la a ∧ LkL L lb b := by
+  rw [LkL, List.zip_append hl] at h
+  exact ⟨fun p hp => h p (List.mem_append_left _ hp), fun p hp => h p (List.mem_append_right _ hp)⟩
+
+theorem LkB_split {B : Tbl Str} {n : Nat} {a b : List Str} (h : LkB B n (a ++ b)) :
+    LkB B n a ∧ LkB B (n + a.length) b := by
+  have hr : (List.range' n (a ++ b).length).zip (a ++ b) =
+      (List.range' n a.length).zip a ++ (List.range' (n + a.length) b.length).zip b := by
+    rw [List.length_append, ← List.range'_append_1, List.zip_append (by simp)]
+  rw [LkB, hr] at h
+  exact ⟨fun p hp => h p (List.mem_append_left _ hp), fun p hp => h p (List.mem_append_right _ hp)⟩
+
+theorem lineBody_eq (x : Str) : lineBody ('/' :: '/' :: x) = x := rfl
+
+mutual
+  theorem doc_treeV (L B : Tbl Str) : ∀ (v : CSrc) (l1 ext : List Nat) (n d : Nat),
+      l1.length = (lineFullsV v).length → (∀ i ∈ l1, i ≤ 999999) → n + (blockFullsV v).length ≤ 1000000 →
+      okV d v = true → LkL L l1 (lineFullsV v) → LkB B n (blockFullsV v) →
+      (match v with
+       | .dict items => phCov L B (dTreeI (l1 ++ ext) n items) = true ∧
+                        docEs L B (dTreeI (l1 ++ ext) n items) = cnormI items
+       | _ => True)
+    | .lit l, _, _, _, _, _, _, _, _, _, _ => trivial
+    | .list xs, _, _, _, _, _, _, _, _, _, _ => trivial
+    | .dict items, l1, ext, n, d, hl, hi, hn, hok, hL, hB => by
+      simp only [lineFullsV, blockFullsV, okV] at hl hn hok hL hB
+      exact doc_treeI L B items l1 ext n (d + 1) hl hi hn hok hL hB
+  /-- with the comments in the tables, the document written for the tree is the document in the writer's spelling -/
+  theorem doc_treeI (L B : Tbl Str) : ∀ (items : List CItem) (l1 ext : List Nat) (n d : Nat),
+      l1.length = (lineFullsI items).length → (∀ i ∈ l1, i ≤ 999999) → n + (blockFullsI items).length ≤ 1000000 →
+      okI d items = true → LkL L l1 (lineFullsI items) → LkB B n (blockFullsI items) →
+      phCov L B (dTreeI (l1 ++ ext) n items) = true ∧ docEs L B (dTreeI (l1 ++ ext) n items) = cnormI items
+    | [], _, _, _, _, _, _, _, _, _, _ => by simp [dTreeI, phCov, docEs, cnormI]
+    | .entry k v :: r, l1, ext, n, d, hl, hi, hn, hok, hL, hB => by
+      simp only [lineFullsI, blockFullsI, List.length_append, okI, Bool.and_eq_true] at hl hn hok hL hB
+      -- split the supply
+      obtain ⟨la, lb, rfl, hla⟩ : ∃ la lb, l1 = la ++ lb ∧ la.length = (lineFullsV v).length :=
+        ⟨l1.take (lineFullsV v).length, l1.drop (lineFullsV v).length, (List.take_append_drop _ _).symm,
+          by rw [List.length_take]; omega⟩
+      have hlb : lb.length = (lineFullsI r).length := by simp only [List.length_append] at hl; omega
+      obtain ⟨hLa, hLb⟩ := LkL_split hla hL
+      obtain ⟨hBa, hBb⟩ := LkB_split hB
+      have hdrop : (la ++ lb ++ ext).drop (lineFullsV v).length = lb ++ ext := by
+        rw [List.append_assoc, List.drop_left' hla]
+      have ihr := doc_treeI L B r lb ext (n + (blockFullsV v).length) d hlb
+        (fun i h => hi i (List.mem_append_right _ h)) (by omega) hok.2 hLb hBb
+      have ihv := doc_treeV L B v la (lb ++ ext) n d hla (fun i h => hi i (List.mem_append_left _ h)) (by omega)
+        hok.1.2 hLa hBa
+      simp only [dTreeI, hdrop]
+      have hph : ∀ x, phOf (keyOfStr k) x = none := phOf_dom hok.1.1
+      cases v with
+      | lit l =>
+        simp only [dTreeV, phCov, docEs, hph, cnormI, cnormV, ihr.1, ihr.2, Bool.and_self]
+        exact ⟨trivial, trivial⟩
+      | list xs =>
+        simp only [dTreeV, phCov, docEs, cnormI, cnormV, ihr.1, ihr.2]
+        exact ⟨trivial, trivial⟩
+      | dict items =>
+        simp only [List.append_assoc] at ihv ⊢
+        simp only [dTreeV, phCov, docEs, cnormI, cnormV, ihr.1, ihr.2, ihv.1, ihv.2, Bool.and_self]
+        exact ⟨trivial, trivial⟩
+    | .lineC x :: r, l1, ext, n, d, hl, hi, hn, hok, hL, hB => by
+      simp only [lineFullsI, blockFullsI, List.length_cons, okI, Bool.and_eq_true] at hl hn hok hL hB
+      cases l1 with
+      | nil => simp at hl
+      | cons i l1 =>
+        simp only [List.length_cons, Nat.add_right_cancel_iff] at hl
+        have hL0 : L.get? i = some ('/' :: '/' :: x) := hL (i, _) (by simp)
+        have hLr : LkL L l1 (lineFullsI r) := fun p hp => hL p (by simp [hp])
+        have ihr := doc_treeI L B r l1 ext n d hl (fun j h => hi j (List.mem_cons_of_mem _ h)) hn hok.2 hLr hB
+        have hii : i ≤ 999999 := hi i List.mem_cons_self
+        simp only [List.cons_append, dTreeI, List.headD_cons, List.tail_cons, phEntry, phCov, docEs, phOf_ph true hii,
+          hL0, Option.isSome_some, Option.getD_some, lineBody_eq, cnormI, ihr.1, ihr.2, Bool.and_self]
+        exact ⟨trivial, trivial⟩
+    | .blockC x :: r, l1, ext, n, d, hl, hi, hn, hok, hL, hB => by
+      simp only [lineFullsI, blockFullsI, List.length_cons, okI, Bool.and_eq_true] at hl hn hok hL hB
+      have hB0 : B.get? n = some ('/' :: '*' :: x ++ ['*', '/']) := hB (n, _) (by simp [List.range'_succ])
+      have hBr : LkB B (n + 1) (blockFullsI r) := by
+        intro p hp
+        apply hB p
+        simp only [List.length_cons, List.range'_succ, List.zip_cons_cons, List.mem_cons]
+        exact Or.inr hp
+      have ihr := doc_treeI L B r l1 ext (n + 1) d hl hi (by omega) hok.2 hL hBr
+      have hnn : n ≤ 999999 := by omega
+      simp only [dTreeI, phEntry, phCov, docEs, phOf_ph false hnn,
+        hB0, Option.isSome_some, Option.getD_some, blockBody_eq, cnormI, ihr.1, ihr.2, Bool.and_self]
+      exact ⟨trivial, trivial⟩
+end
+
+mutual
+  theorem wsh_treeV : ∀ (v : CSrc) (l1 ext : List Nat) (n d : Nat),
+      l1.length = (lineFullsV v).length → (∀ i ∈ l1, i ≤ 999999) → n + (blockFullsV v).length ≤ 1000000 →
+      okV d v = true →
+      (match v with
+       | .dict items => wshEs (d + 1) (dTreeI (l1 ++ ext) n items) = true
+       | _ => True)
+    | .lit l, _, _, _, _, _, _, _, _ => trivial
+    | .list xs, _, _, _, _, _, _, _, _ => trivial
+    | .dict items, l1, ext, n, d, hl, hi, hn, hok => by
+      simp only [lineFullsV, blockFullsV, okV] at hl hn hok
+      exact wsh_treeI items l1 ext n (d + 1) hl hi hn hok
+  /-- the tree has the shape the writer theorem asks for -/
+  theorem wsh_treeI : ∀ (items : List CItem) (l1 ext : List Nat) (n d : Nat),
+      l1.length = (lineFullsI items).length → (∀ i ∈ l1, i ≤ 999999) → n + (blockFullsI items).length ≤ 1000000 →
+      okI d items = true → wshEs d (dTreeI (l1 ++ ext) n items) = true
+    | [], _, _, _, _, _, _, _, _ => by simp [dTreeI, wshEs]
+    | .entry k v :: r, l1, ext, n, d, hl, hi, hn, hok => by
+      simp only [lineFullsI, blockFullsI, List.length_append, okI, Bool.and_eq_true] at hl hn hok
+      obtain ⟨la, lb, rfl, hla⟩ : ∃ la lb, l1 = la ++ lb ∧ la.length = (lineFullsV v).length :=
+        ⟨l1.take (lineFullsV v).length, l1.drop (lineFullsV v).length, (List.take_append_drop _ _).symm,
+          by rw [List.length_take]; omega⟩
+      have hlb : lb.length = (lineFullsI r).length := by simp only [List.length_append] at hl; omega
+      have hdrop : (la ++ lb ++ ext).drop (lineFullsV v).length = lb ++ ext := by
+        rw [List.append_assoc, List.drop_left' hla]
+      have ihr := wsh_treeI r lb ext (n + (blockFullsV v).length) d hlb
+        (fun i h => hi i (List.mem_append_right _ h)) (by omega) hok.2
+      have ihv := wsh_treeV v la (lb ++ ext) n d hla (fun i h => hi i (List.mem_append_left _ h)) (by omega) hok.1.2
+      simp only [dTreeI, hdrop]
+      cases v with
+      | lit l =>
+        simp only [okV, Bool.and_eq_true] at hok
+        simp only [dTreeV, wshEs, hok.1.1, hok.1.2.1, hok.1.2.2, ihr, Bool.and_self, Bool.or_true]
+      | list xs =>
+        simp only [okV] at hok
+        simp only [dTreeV, wshEs, hok.1.1, hok.1.2, ihr, Bool.and_self]
+      | dict items =>
+        simp only [List.append_assoc] at ihv ⊢
+        simp only [dTreeV, wshEs, hok.1.1, ihv, ihr, Bool.and_self]
+    | .lineC x :: r, l1, ext, n, d, hl, hi, hn, hok => by
+      simp only [lineFullsI, blockFullsI, List.length_cons, okI, Bool.and_eq_true] at hl hn hok
+      cases l1 with
+      | nil => simp at hl
+      | cons i l1 =>
+        simp only [List.length_cons, Nat.add_right_cancel_iff] at hl
+        have ihr := wsh_treeI r l1 ext n d hl (fun j h => hi j (List.mem_cons_of_mem _ h)) hn hok.2
+        simp only [List.cons_append, dTreeI, List.headD_cons, List.tail_cons, phEntry, wshEs,
+          phOf_ph true (hi i List.mem_cons_self), Option.isSome_some, Bool.true_or, ihr, Bool.and_self]
+    | .blockC x :: r, l1, ext, n, d, hl, hi, hn, hok => by
+      simp only [lineFullsI, blockFullsI, List.length_cons, okI, Bool.and_eq_true] at hl hn hok
+      have ihr := wsh_treeI r l1 ext (n + 1) d hl hi (by omega) hok.2
+      have hnn : n ≤ 999999 := by omega
+      simp only [dTreeI, phEntry, wshEs, phOf_ph false hnn, Option.isSome_some, Bool.true_or, ihr, Bool.and_self]
+end
+
+/-! ### the keys of every level are pairwise distinct -/
+
+/-- the typed keys of the entries of one level -/
+def levelKeys : List CItem → List Key
+  | [] => []
+  | .entry k _ :: r => keyOfStr k :: levelKeys r
+  | .lineC _ :: r => levelKeys r
+  | .blockC _ :: r => levelKeys r
+
+/-- the line / block comments of one level (not of the levels below) -/
+def lvlLines : List CItem → List Str
+  | [] => []
+  | .lineC x :: r => x :: lvlLines r
+  | .entry _ _ :: r => lvlLines r
+  | .blockC _ :: r => lvlLines r
+
+def lvlBlocks : List CItem → List Str
+  | [] => []
+  | .blockC x :: r => x :: lvlBlocks r
+  | .entry _ _ :: r => lvlBlocks r
+  | .lineC _ :: r => lvlBlocks r
+
+/-- at one level: no key twice, no line comment twice, no block comment twice -/
+def levelOK (items : List CItem) : Bool :=
+  decide (levelKeys items).Nodup && decide (lvlLines items).Nodup && decide (lvlBlocks items).Nodup
+
+mutual
+  def lvlV : CSrc → Bool
+    | .dict items => levelOK items && lvlI items
+    | _ => true
+  /-- … at every level below -/
+  def lvlI : List CItem → Bool
+    | [] => true
+    | .entry _ v :: r => lvlV v && lvlI r
+    | .lineC _ :: r => lvlI r
+    | .blockC _ :: r => lvlI r
+end
+
+theorem phWord_inj {l l' : Bool} {i j : Nat} (hi : i ≤ 999999) (hj : j ≤ 999999) (h : phWord l i = phWord l' j) :
+    l = l' ∧ i = j :=
+  phWord_infix hi hj (by rw [h]; exact C02.isInfix_self _)
+
+theorem dom_ne_ph {k : Key} (h : isDomKey k = true) (l : Bool) {i : Nat} (hi : i ≤ 999999) : k ≠ .str (phWord l i) := by
+  intro e
+  have h1 := phOf_dom h (.str (phWord l i))
+  rw [e, phOf_ph l hi] at h1
+  cases h1
+
+/-- where the keys of a level come from -/
+theorem keys_tree : ∀ (items : List CItem) (l1 ext : List Nat) (n : Nat), l1.length = (lineFullsI items).length →
+    ∀ key ∈ keys (dTreeI (l1 ++ ext) n items),
+      key ∈ levelKeys items ∨ (∃ i ∈ l1, key = .str (phWord true i)) ∨
+      (∃ j, n ≤ j ∧ j < n + (blockFullsI items).length ∧ key = .str (phWord false j))
+  | [], _, _, _, _, key, hk => by simp [dTreeI, keys] at hk
+  | .entry k v :: r, l1, ext, n, hl, key, hk => by
+    simp only [lineFullsI, blockFullsI, List.length_append] at hl ⊢
+    obtain ⟨la, lb, rfl, hla⟩ : ∃ la lb, l1 = la ++ lb ∧ la.length = (lineFullsV v).length :=
+      ⟨l1.take (lineFullsV v).length, l1.drop (lineFullsV v).length, (List.take_append_drop _ _).symm,
+        by rw [List.length_take]; omega⟩
+    have hlb : lb.length = (lineFullsI r).length := by simp only [List.length_append] at hl; omega
+    have hdrop : (la ++ lb ++ ext).drop (lineFullsV v).length = lb ++ ext := by
+      rw [List.append_assoc, List.drop_left' hla]
+    simp only [dTreeI, hdrop, keys, List.map_cons, List.mem_cons] at hk
+    rcases hk with rfl | hk
+    · exact Or.inl (by simp [levelKeys])
+    · rcases keys_tree r lb ext _ hlb key hk with h | ⟨i, hi, e⟩ | ⟨j, h1, h2, e⟩
+      · exact Or.inl (by simp [levelKeys, h])
+      · exact Or.inr (Or.inl ⟨i, List.mem_append_right _ hi, e⟩)
+      · exact Or.inr (Or.inr ⟨j, by omega, by omega, e⟩)
+  | .lineC x :: r, l1, ext, n, hl, key, hk => by
+    simp only [lineFullsI, blockFullsI, List.length_cons] at hl ⊢
+    cases l1 with
+    | nil => simp at hl
+    | cons i l1 =>
+      simp only [List.length_cons, Nat.add_right_cancel_iff] at hl
+      simp only [List.cons_append, dTreeI, List.headD_cons, List.tail_cons, phEntry, keys, List.map_cons,
+        List.mem_cons] at hk
+      rcases hk with rfl | hk
+      · exact Or.inr (Or.inl ⟨i, List.mem_cons_self, rfl⟩)
+      · rcases keys_tree r l1 ext n hl key hk with h | ⟨i', hi', e⟩ | ⟨j, h1, h2, e⟩
+        · exact Or.inl (by simpa [levelKeys] using h)
+        · exact Or.inr (Or.inl ⟨i', List.mem_cons_of_mem _ hi', e⟩)
+        · exact Or.inr (Or.inr ⟨j, h1, h2, e⟩)
+  | .blockC x :: r, l1, ext, n, hl, key, hk => by
+    simp only [lineFullsI, blockFullsI, List.length_cons] at hl ⊢
+    simp only [dTreeI, phEntry, keys, List.map_cons, List.mem_cons] at hk
+    rcases hk with rfl | hk
+    · exact Or.inr (Or.inr ⟨n, Nat.le_refl _, by omega, rfl⟩)
+    · rcases keys_tree r l1 ext (n + 1) hl key hk with h | ⟨i', hi', e⟩ | ⟨j, h1, h2, e⟩
+      · exact Or.inl (by simpa [levelKeys] using h)
+      · exact Or.inr (Or.inl ⟨i', hi', e⟩)
+      · exact Or.inr (Or.inr ⟨j, by omega, by omega, e⟩)
+
+theorem levelKeys_dom {d : Nat} : ∀ {items : List CItem}, okI d items = true → ∀ k ∈ levelKeys items, isDomKey k = true
+  | [], _, k, hk => by simp [levelKeys] at hk
+  | .entry k0 v :: r, h, k, hk => by
+    simp only [okI, Bool.and_eq_true] at h
+    simp only [levelKeys, List.mem_cons] at hk
+    rcases hk with rfl | hk
+    · exact h.1.1
+    · exact levelKeys_dom h.2 k hk
+  | .lineC x :: r, h, k, hk => by
+    simp only [okI, Bool.and_eq_true] at h
+    exact levelKeys_dom h.2 k (by simpa [levelKeys] using hk)
+  | .blockC x :: r, h, k, hk => by
+    simp only [okI, Bool.and_eq_true] at h
+    exact levelKeys_dom h.2 k (by simpa [levelKeys] using hk)
+
+/-- the keys of one level are pairwise distinct -/
+theorem knodup_tree : ∀ (items : List CItem) (l1 ext : List Nat) (n d : Nat), l1.length = (lineFullsI items).length →
+    l1.Nodup → (∀ i ∈ l1, i ≤ 999999) → n + (blockFullsI items).length ≤ 1000000 → okI d items = true →
+    (levelKeys items).Nodup → KNodup (dTreeI (l1 ++ ext) n items)
+  | [], _, _, _, _, _, _, _, _, _, _ => by simp [dTreeI, KNodup, keys]
+  | .entry k v :: r, l1, ext, n, d, hl, hnd, hi, hn, hok, hkn => by
+    simp only [lineFullsI, blockFullsI, List.length_append] at hl hn
+    have hok' := hok
+    simp only [okI, Bool.and_eq_true] at hok
+    simp only [levelKeys, List.nodup_cons] at hkn
+    obtain ⟨la, lb, rfl, hla⟩ : ∃ la lb, l1 = la ++ lb ∧ la.length = (lineFullsV v).length :=
+      ⟨l1.take (lineFullsV v).length, l1.drop (lineFullsV v).length, (List.take_append_drop _ _).symm,
+        by rw [List.length_take]; omega⟩
+    have hlb : lb.length = (lineFullsI r).length := by simp only [List.length_append] at hl; omega
+    have hdrop : (la ++ lb ++ ext).drop (lineFullsV v).length = lb ++ ext := by
+      rw [List.append_assoc, List.drop_left' hla]
+    have hib : ∀ i ∈ lb, i ≤ 999999 := fun i h => hi i (List.mem_append_right _ h)
+    have ih := knodup_tree r lb ext (n + (blockFullsV v).length) d hlb (List.nodup_append.mp hnd).2.1 hib (by omega)
+      hok.2 hkn.2
+    simp only [dTreeI, hdrop, KNodup, keys, List.map_cons, List.nodup_cons]
+    refine ⟨?_, ih⟩
+    intro hmem
+    rcases keys_tree r lb ext _ hlb _ hmem with h | ⟨i, hi', e⟩ | ⟨j, h1, h2, e⟩
+    · exact hkn.1 h
+    · exact dom_ne_ph hok.1.1 true (hib i hi') e
+    · exact dom_ne_ph hok.1.1 false (by omega) e
+  | .lineC x :: r, l1, ext, n, d, hl, hnd, hi, hn, hok, hkn => by
+    simp only [lineFullsI, blockFullsI, List.length_cons] at hl hn
+    simp only [okI, Bool.and_eq_true] at hok
+    cases l1 with
+    | nil => simp at hl
+    | cons i l1 =>
+      simp only [List.length_cons, Nat.add_right_cancel_iff] at hl
+      simp only [List.nodup_cons] at hnd
+      have hi1 : ∀ j ∈ l1, j ≤ 999999 := fun j h => hi j (List.mem_cons_of_mem _ h)
+      have ih := knodup_tree r l1 ext n d hl hnd.2 hi1 hn hok.2 (by simpa [levelKeys] using hkn)
+      simp only [List.cons_append, dTreeI, List.headD_cons, List.tail_cons, phEntry, KNodup, keys, List.map_cons,
+        List.nodup_cons]
+      refine ⟨?_, ih⟩
+      intro hmem
+      rcases keys_tree r l1 ext n hl _ hmem with h | ⟨i', hi', e⟩ | ⟨j, h1, h2, e⟩
+      · exact dom_ne_ph (levelKeys_dom hok.2 _ h) true (hi i List.mem_cons_self) rfl
+      · simp only [Key.str.injEq] at e
+        have := (phWord_inj (hi i List.mem_cons_self) (hi1 i' hi') e).2
+        subst this
+        exact hnd.1 hi'
+      · simp only [Key.str.injEq] at e
+        have := (phWord_inj (hi i List.mem_cons_self) (by omega) e).1
+        cases this
+  | .blockC x :: r, l1, ext, n, d, hl, hnd, hi, hn, hok, hkn => by
+    simp only [lineFullsI, blockFullsI, List.length_cons] at hl hn
+    simp only [okI, Bool.and_eq_true] at hok
+    have ih := knodup_tree r l1 ext (n + 1) d hl hnd hi (by omega) hok.2 (by simpa [levelKeys] using hkn)
+    simp only [dTreeI, phEntry, KNodup, keys, List.map_cons, List.nodup_cons]
+    refine ⟨?_, ih⟩
+    intro hmem
+    rcases keys_tree r l1 ext (n + 1) hl _ hmem with h | ⟨i', hi', e⟩ | ⟨j, h1, h2, e⟩
+    · exact dom_ne_ph (levelKeys_dom hok.2 _ h) false (by omega) rfl
+    · simp only [Key.str.injEq] at e
+      have := (phWord_inj (by omega) (hi i' hi') e).1
+      cases this
+    · simp only [Key.str.injEq] at e
+      have := (phWord_inj (by omega) (by omega) e).2
+      omega
+
+/-! ### `_clean` finds nothing to do: the comments of one level as `_clean_data` sees them -/
+
+theorem sel_dom {k : Key} (h : isDomKey k = true) : selB k = false ∧ selI k = false ∧ selL k = false := by
+  cases k with
+  | int z => exact ⟨rfl, rfl, rfl⟩
+  | str s =>
+    obtain ⟨h1, h2⟩ := C01.domKey_not_ph h
+    have h3 : containsPh kwLine s = false := by
+      apply containsPh_false
+      simp only [isDomKey, Bool.and_eq_true] at h
+      have hc := (C01.isSrcWord_iff.mp h.1.1).2.1
+      cases hi : isInfix kwLine s with
+      | false => rfl
+      | true =>
+        have : isInfix "COMMENT".toList s = true := C01.isInfix_of_append (p := "LINE".toList) hi
+        rw [this] at hc; cases hc
+    simp [selB, selI, selL, h1, h2, h3]
+
+theorem sel_line {i : Nat} (hi : i ≤ 999999) :
+    selB (.str (phWord true i)) = false ∧ selI (.str (phWord true i)) = false ∧ selL (.str (phWord true i)) = true := by
+  have h3 : containsPh kwLine (phWord true i) = true := containsPh_own true hi
+  simp [selB, selI, selL, containsPh_block_line, containsPh_incl_ph, h3]
+
+theorem sel_block {i : Nat} (hi : i ≤ 999999) :
+    selB (.str (phWord false i)) = true ∧ selI (.str (phWord false i)) = false ∧ selL (.str (phWord false i)) = false := by
+  have h3 : containsPh kwBlock (phWord false i) = true := containsPh_own false hi
+  simp [selB, selI, selL, h3]
+
+theorem look_ph (T : Tbl Str) (l : Bool) {i : Nat} (hi : i ≤ 999999) : look T (.str (phWord l i)) = T.get? i := by
+  simp [look, firstSix_ph l hi]
+
+/-- the three candidate lists of `_clean_data` on one level of the tree -/
+theorem level_cands (L B : Tbl Str) : ∀ (items : List CItem) (l1 ext : List Nat) (n d : Nat),
+    l1.length = (lineFullsI items).length → (∀ i ∈ l1, i ≤ 999999) → n + (blockFullsI items).length ≤ 1000000 →
+    okI d items = true → LkL L l1 (lineFullsI items) → LkB B n (blockFullsI items) →
+    ((keys (dTreeI (l1 ++ ext) n items)).filter selB).filterMap (look B) =
+        (lvlBlocks items).map (fun x => '/' :: '*' :: x ++ ['*', '/']) ∧
+    (keys (dTreeI (l1 ++ ext) n items)).filter selI = [] ∧
+    ((keys (dTreeI (l1 ++ ext) n items)).filter selL).filterMap (look L) =
+        (lvlLines items).map (fun x => '/' :: '/' :: x)
+  | [], _, _, _, _, _, _, _, _, _, _ => by simp [dTreeI, keys, lvlBlocks, lvlLines]
+  | .entry k v :: r, l1, ext, n, d, hl, hi, hn, hok, hL, hB => by
+    simp only [lineFullsI, blockFullsI, List.length_append, okI, Bool.and_eq_true] at hl hn hok hL hB
+    obtain ⟨la, lb, rfl, hla⟩ : ∃ la lb, l1 = la ++ lb ∧ la.length = (lineFullsV v).length :=
+      ⟨l1.take (lineFullsV v).length, l1.drop (lineFullsV v).length, (List.take_append_drop _ _).symm,
+        by rw [List.length_take]; omega⟩
+    have hlb : lb.length = (lineFullsI r).length := by simp only [List.length_append] at hl; omega
+    have hdrop : (la ++ lb ++ ext).drop (lineFullsV v).length = lb ++ ext := by
+      rw [List.append_assoc, List.drop_left' hla]
+    have ih := level_cands L B r lb ext (n + (blockFullsV v).length) d hlb
+      (fun i h => hi i (List.mem_append_right _ h)) (by omega) hok.2 (LkL_split hla hL).2 (LkB_split hB).2
+    obtain ⟨s1, s2, s3⟩ := sel_dom hok.1.1
+    simp only [dTreeI, hdrop, keys, List.map_cons, List.filter_cons, s1, s2, s3, Bool.false_eq_true, if_false,
+      lvlBlocks, lvlLines]
+    exact ih
+  | .lineC x :: r, l1, ext, n, d, hl, hi, hn, hok, hL, hB => by
+    simp only [lineFullsI, blockFullsI, List.length_cons, okI, Bool.and_eq_true] at hl hn hok hL hB
+    cases l1 with
+    | nil => simp at hl
+    | cons i l1 =>
+      simp only [List.length_cons, Nat.add_right_cancel_iff] at hl
+      have hL0 : L.get? i = some ('/' :: '/' :: x) := hL (i, _) (by simp)
+      have hLr : LkL L l1 (lineFullsI r) := fun p hp => hL p (by simp [hp])
+      have ih := level_cands L B r l1 ext n d hl (fun j h => hi j (List.mem_cons_of_mem _ h)) hn hok.2 hLr hB
+      have hii : i ≤ 999999 := hi i List.mem_cons_self
+      obtain ⟨s1, s2, s3⟩ := sel_line hii
+      simp only [List.cons_append, dTreeI, List.headD_cons, List.tail_cons, phEntry, keys, List.map_cons,
+        List.filter_cons, s1, s2, s3, Bool.false_eq_true, if_false, if_true, List.filterMap_cons, look_ph L true hii, hL0,
+        lvlBlocks, lvlLines]
+      exact ⟨ih.1, ih.2.1, by rw [ih.2.2]⟩
+  | .blockC x :: r, l1, ext, n, d, hl, hi, hn, hok, hL, hB => by
+    simp only [lineFullsI, blockFullsI, List.length_cons, okI, Bool.and_eq_true] at hl hn hok hL hB
+    have hB0 : B.get? n = some ('/' :: '*' :: x ++ ['*', '/']) := hB (n, _) (by simp [List.range'_succ])
+    have hBr : LkB B (n + 1) (blockFullsI r) := by
+      intro p hp
+      apply hB p
+      simp only [List.length_cons, List.range'_succ, List.zip_cons_cons, List.mem_cons]
+      exact Or.inr hp
+    have ih := level_cands L B r l1 ext (n + 1) d hl hi (by omega) hok.2 hL hBr
+    have hnn : n ≤ 999999 := by omega
+    obtain ⟨s1, s2, s3⟩ := sel_block hnn
+    simp only [dTreeI, phEntry, keys, List.map_cons,
+      List.filter_cons, s1, s2, s3, Bool.false_eq_true, if_false, if_true, List.filterMap_cons, look_ph B false hnn, hB0,
+      lvlBlocks, lvlLines]
+    exact ⟨by rw [ih.1], ih.2.1, ih.2.2⟩
+
+theorem map_inj_nodup {α β} {f : α → β} (hf : ∀ a b, f a = f b → a = b) {l : List α} (h : l.Nodup) : (l.map f).Nodup := by
+  induction l with
+  | nil => simp
+  | cons a l ih =>
+    simp only [List.nodup_cons, List.map_cons, List.mem_map] at h ⊢
+    refine ⟨?_, ih h.2⟩
+    rintro ⟨b, hb, e⟩
+    rw [hf b a e] at hb
+    exact h.1 hb
+
+/-- nothing to clean at one level of the tree -/
+theorem levelFix_tree (s : SD) (items : List CItem) (l1 ext : List Nat) (n d : Nat)
+    (hl : l1.length = (lineFullsI items).length) (hnd : l1.Nodup) (hi : ∀ i ∈ l1, i ≤ 999999)
+    (hn : n + (blockFullsI items).length ≤ 1000000) (hok : okI d items = true)
+    (hL : LkL s.lineC l1 (lineFullsI items)) (hB : LkB s.blockC n (blockFullsI items)) (hlev : levelOK items = true) :
+    levelFix s (dTreeI (l1 ++ ext) n items) := by
+  simp only [levelOK, Bool.and_eq_true, decide_eq_true_eq] at hlev
+  obtain ⟨c1, c2, c3⟩ := level_cands s.lineC s.blockC items l1 ext n d hl hi hn hok hL hB
+  refine ⟨?_, c2, ?_, knodup_tree items l1 ext n d hl hnd hi hn hok hlev.1.1⟩
+  · rw [c1]
+    refine map_inj_nodup ?_ hlev.2
+    intro a b e
+    simp only [List.cons_append, List.cons.injEq, true_and] at e
+    exact List.append_cancel_right e
+  · rw [c3]
+    refine map_inj_nodup ?_ hlev.1.2
+    intro a b e
+    simpa using e
 
 end DictIO.C12W
